@@ -600,9 +600,84 @@ static void run_case_twins(void)
 	xp_state(hash_mix((uint64_t)order * 1000 + (uint64_t)ln * 100 + (uint64_t)lp * 50 + (uint64_t)tg * 2 + (uint64_t)tr, 4445));
 }
 
+/* ---- section 4: every value of the random bytes behind a new salt --------------------------------------------------------------
+ * A password change draws its salt from the random source.  For accounts hashed with DES (2 salt characters), MD5 and SHA-512 the
+ * first or the second random byte takes every value 0..255 (the others are 7): the change is acknowledged, the new password
+ * authenticates, the old one does not, and the stored member is a complete hash of the new password. */
+static void run_salt_bytes(void)
+{
+	static const char *const KIND[] = {"DES", "MD5", "SHA-512"};
+	static const char *const SETTING[] = {"ab", "$1$saltsalt$", "$6$saltsaltsalt$"};
+	int kind = xp_choose(3, XP_SCENARIO, "hash-kind");
+	int pos = xp_choose(2, XP_SCENARIO, "byte-position");
+	int v = xp_choose(256, XP_SCENARIO, "random-byte-value");
+	static const char *const OLD = "old-Winter-2025", *const NEW = "new-Winter-2025"; /* DES looks at the first 8 characters only */
+	snprintf(what, sizeof(what), "account with a %s hash changes its password; random byte #%d of the new salt is %d", KIND[kind], pos, v);
+	char h[200];
+	snprintf(h, sizeof(h), "%s", crypt(OLD, SETTING[kind]));
+	struct bytebuf f = {0};
+	bb_printf(&f, "{\"users\":{\"u\":{\"password\":\"%s\",\"auth\":{\"fetchGroups\":[\"g\"],\"setGroups\":[\"g\"],\"callGroups\":[\"g\"]}}}}", h);
+	bb_append(&f, "", 1);
+	struct sim_opts o = {0};
+	o.passwd_file = (char *)f.p;
+	jx_boot(&o);
+	int P = jx_open(CL_RAW);
+	jx_sendf(P, "{\"id\":\"a\",\"method\":\"authenticate\",\"params\":{\"user\":\"u\",\"password\":\"%s\"}}", OLD);
+	jx_settle();
+	if (!jx_is_success(jx_find_response_str(P, "a", 0))) {
+		fail20("salt:setup-failed", "the account cannot authenticate with its original %s hash", KIND[kind]);
+	}
+	uint8_t script[24];
+	memset(script, 7, sizeof(script));
+	script[pos] = (uint8_t)v;
+	sim_random_script(script, sizeof(script));
+	jx_sendf(P, "{\"id\":\"pw\",\"method\":\"passwd\",\"params\":{\"user\":\"u\",\"password\":\"%s\"}}", NEW);
+	jx_settle();
+	struct cl_msg *r = jx_find_response_str(P, "pw", 0);
+	if (r == NULL) {
+		fail20("salt:passwd-not-answered", "no response");
+	}
+	bool acked = jx_is_success(r);
+	bool new_ok = can_login("u", NEW), old_ok = can_login("u", OLD);
+	char key[160];
+	if (acked && (!new_ok || old_ok)) {
+		snprintf(key, sizeof(key), "salt:acknowledged-change-not-effective:%s", KIND[kind]);
+		fail20(key, "the change was acknowledged; afterwards the new password works = %d, the old one works = %d", new_ok, old_ok);
+	}
+	if (!acked && (new_ok || !old_ok)) {
+		snprintf(key, sizeof(key), "salt:refused-change-took-effect:%s", KIND[kind]);
+		fail20(key, "the change was answered with an error; afterwards the new password works = %d, the old one works = %d", new_ok, old_ok);
+	}
+	if (!acked) {
+		snprintf(key, sizeof(key), "salt:allowed-change-refused:%s", KIND[kind]);
+		fail20(key, "an account's change of its own password was refused: %.200s", r->text);
+	}
+	/* the stored member is a complete hash of the new password */
+	const struct bytebuf *img = sim_fs_content();
+	char *text = malloc(img->len + 1);
+	memcpy(text, img->p, img->len);
+	text[img->len] = 0;
+	cJSON *root = cJSON_Parse(text);
+	const cJSON *users = root ? cJSON_GetObjectItemCaseSensitive(root, "users") : NULL;
+	const char *stored = entry_hash(users, "u");
+	const char *again = stored ? crypt(NEW, stored) : NULL;
+	if (stored == NULL || again == NULL || strcmp(again, stored) != 0) {
+		snprintf(key, sizeof(key), "salt:stored-member-is-no-hash-of-the-new-password:%s", KIND[kind]);
+		fail20(key, "the file now holds '%s' for the account, which is not crypt(new password, itself)", stored ? stored : "(nothing)");
+	}
+	cJSON_Delete(root);
+	free(text);
+	xp_nontrivial();
+	xp_transition();
+	xp_outcome((uint64_t)kind);
+	xp_state(hash_mix((uint64_t)kind * 1000 + (uint64_t)pos * 256 + (uint64_t)v, 4446));
+}
+
 static void run(void)
 {
-	if (xp_param("section", 0) == 3) {
+	if (xp_param("section", 0) == 4) {
+		run_salt_bytes();
+	} else if (xp_param("section", 0) == 3) {
 		run_case_twins();
 	} else if (xp_param("section", 0) == 2) {
 		run_history();
@@ -617,6 +692,6 @@ const struct driver drv_c20 = {
     .name = "c20",
     .property = "C20",
     .run = run,
-    .rule = "section 0: credential file with 7 accounts (plain, admin, read-only, read-only admin, names that are prefixes / extensions of each other) x 8 caller identities (unauthenticated, plain, admin, read-only, plain then failed authentication, prefix-named, read-only admin, re-authenticated) x 9 targets (each account, unknown, empty) x 2 transports x {single change, a second change by the admin afterwards}; reference: allowed iff caller authenticated, target exists and is not read-only, caller is the target or an admin; allowed => success, the new password (which differs from the old one only in its last character) authenticates and the old does not, every other account unaffected, file rewritten and complete; refused => error, file byte-identical, nothing changed; section 1: one allowed change (by the user / by the admin) x fault outcome {none, ftruncate fails, write fails ENOSPC / EIO, first write accepts only j bytes for EVERY j < file size} x EVERY crash point (file image before the change and after each mutating call, recorded by the simulated file system in a twin execution): a fresh daemon booted on the image must load it and authenticate john with exactly one of old / new password and every other account unchanged; acknowledged => new set on disk and effective in the running daemon; error answer => old set on disk and in memory; section 2: histories of two changes in one daemon run - the first meets {no fault, ftruncate fails, write fails ENOSPC, write accepts k bytes then ENOSPC, write accepts k bytes then the rest} for EVERY k, the second (a third password, by john or by the admin) meets none: both are answered, the fault-free one is acknowledged, the running daemon and a fresh daemon booted on the final file authenticate john with exactly the password the two answers describe, other accounts unchanged; section 3: a file with a privileged and a plain account whose names differ only in case (both orders) plus bob x login name {admin, Admin, ADMIN} x offered password {plain's, privileged's} x target {bob, admin, Admin, ADMIN, BOB} x transport: a caller that proved only the plain account's password changes neither bob's nor the privileged entry, a refused change leaves the file alone, one request changes at most one entry, an acknowledged change is on disk and authenticates the target name as written; params: users (file size), salt (seed of the deterministic random stub); non-trivial = all applicable runs",
+    .rule = "section 0: credential file with 7 accounts (plain, admin, read-only, read-only admin, names that are prefixes / extensions of each other) x 8 caller identities (unauthenticated, plain, admin, read-only, plain then failed authentication, prefix-named, read-only admin, re-authenticated) x 9 targets (each account, unknown, empty) x 2 transports x {single change, a second change by the admin afterwards}; reference: allowed iff caller authenticated, target exists and is not read-only, caller is the target or an admin; allowed => success, the new password (which differs from the old one only in its last character) authenticates and the old does not, every other account unaffected, file rewritten and complete; refused => error, file byte-identical, nothing changed; section 1: one allowed change (by the user / by the admin) x fault outcome {none, ftruncate fails, write fails ENOSPC / EIO, first write accepts only j bytes for EVERY j < file size} x EVERY crash point (file image before the change and after each mutating call, recorded by the simulated file system in a twin execution): a fresh daemon booted on the image must load it and authenticate john with exactly one of old / new password and every other account unchanged; acknowledged => new set on disk and effective in the running daemon; error answer => old set on disk and in memory; section 2: histories of two changes in one daemon run - the first meets {no fault, ftruncate fails, write fails ENOSPC, write accepts k bytes then ENOSPC, write accepts k bytes then the rest} for EVERY k, the second (a third password, by john or by the admin) meets none: both are answered, the fault-free one is acknowledged, the running daemon and a fresh daemon booted on the final file authenticate john with exactly the password the two answers describe, other accounts unchanged; section 3: a file with a privileged and a plain account whose names differ only in case (both orders) plus bob x login name {admin, Admin, ADMIN} x offered password {plain's, privileged's} x target {bob, admin, Admin, ADMIN, BOB} x transport: a caller that proved only the plain account's password changes neither bob's nor the privileged entry, a refused change leaves the file alone, one request changes at most one entry, an acknowledged change is on disk and authenticates the target name as written; section 4: an account hashed with DES / MD5 / SHA-512 changes its password while the first or the second random byte behind the new salt takes every value 0..255: acknowledged, effective, and the stored member is a complete hash of the new password; params: users (file size), salt (seed of the deterministic random stub); non-trivial = all applicable runs",
     .assumptions = "a crash is modelled as losing everything after a mutating call of the credential file (ftruncate / write); the simulated file system applies each call atomically|write() returning 0 for a non-empty buffer is not modelled",
 };
